@@ -237,6 +237,9 @@ func AssembleFile(ctx context.Context, name string, idx Index, s Store, seeds []
 	for {
 		validatingPrefix := fmt.Sprintf("Attempt %d: Validating ", attempt)
 		if err := plan.Validate(ctx, options.N, NewProgressBar(validatingPrefix)); err != nil {
+			if _, ok := err.(Interrupted); ok { // not a problem with a seed, don't try again
+				return stats, err
+			}
 			// This plan has at least one invalid seed
 			switch options.InvalidSeedAction {
 			case InvalidSeedActionBailOut:
@@ -267,15 +270,17 @@ func AssembleFile(ctx context.Context, name string, idx Index, s Store, seeds []
 	pb.Start()
 	defer pb.Finish()
 
+	var interrupted bool
 loop:
 	for _, segment := range plan {
 		select {
 		case <-ctx.Done():
+			interrupted = true
 			break loop
 		case in <- Job{segment.indexSegment, segment.source}:
 		}
 	}
 	close(in)
 
-	return stats, g.Wait()
+	return stats, waitOrInterrupted(g, interrupted)
 }
